@@ -1,13 +1,16 @@
 From Tab Require Export Run.Glue Model.Writer Proofs.WriterProofs.
 
 (* scripts used by the harness's scripted writer; partial writes accept half
-   of the payload *)
+   of the payload (modes 3, 4) or all of it (modes 5, 6: n = len(p) together
+   with an error) *)
 Definition script_of (mode k : nat) : script := fun i p =>
   match mode with
   | 1 => if k <=? i then WFail else WAccept                       (* fails from call k on *)
   | 2 => if i =? k then WFail else WAccept                        (* fails only on call k *)
   | 3 => if i =? k then WPartial (length p / 2) else if k <? i then WFail else WAccept   (* partial at k, then keeps failing *)
   | 4 => if i =? k then WPartial (length p / 2) else WAccept      (* partial only at k *)
+  | 5 => if i =? k then WPartial (length p) else if k <? i then WFail else WAccept   (* the whole payload accepted AND an error at k, then keeps failing *)
+  | 6 => if i =? k then WPartial (length p) else WAccept          (* the whole payload accepted and an error, only at k *)
   | _ => WAccept
   end.
 
@@ -22,6 +25,7 @@ Fixpoint run_at (mode c : nat) (l : list (list N)) : bool * nat :=
       | 0 => match mode with
              | 1 | 2 => (true, 0)
              | 3 | 4 => (true, Nat.min (length p / 2) (length p))
+             | 5 | 6 => (true, Nat.min (length p) (length p))
              | _ => let '(e, n) := run_at mode 0 r in (e, length p + n)
              end
       | S c' => let '(e, n) := run_at mode c' r in (e, length p + n)
@@ -31,21 +35,25 @@ Fixpoint run_at (mode c : nat) (l : list (list N)) : bool * nat :=
 Lemma script_of_before mode k i p : i < k -> script_of mode k i p = WAccept.
 Proof.
   intros H. unfold script_of.
-  destruct mode as [|[|[|[|[|m]]]]]; try reflexivity.
+  destruct mode as [|[|[|[|[|[|[|m]]]]]]]; try reflexivity.
   - destruct (Nat.leb_spec k i); [lia | reflexivity].
+  - destruct (Nat.eqb_spec i k); [lia | reflexivity].
+  - destruct (Nat.eqb_spec i k); [lia|]. destruct (Nat.ltb_spec k i); [lia | reflexivity].
   - destruct (Nat.eqb_spec i k); [lia | reflexivity].
   - destruct (Nat.eqb_spec i k); [lia|]. destruct (Nat.ltb_spec k i); [lia | reflexivity].
   - destruct (Nat.eqb_spec i k); [lia | reflexivity].
 Qed.
 
-Lemma run_len_at mode k l : forall i, i <= k -> 1 <= mode <= 4 ->
+Lemma run_len_at mode k l : forall i, i <= k -> 1 <= mode <= 6 ->
   run_len (script_of mode k) i l = run_at mode (k - i) l.
 Proof.
   induction l as [|p r IH]; intros i Hi Hm; cbn [run_len run_at]; [reflexivity|].
   destruct (Nat.eq_dec i k) as [->|Hne].
   - rewrite Nat.sub_diag. unfold script_of.
-    destruct mode as [|[|[|[|[|m]]]]]; try lia.
+    destruct mode as [|[|[|[|[|[|[|m]]]]]]]; try lia.
     + rewrite Nat.leb_refl. reflexivity.
+    + rewrite Nat.eqb_refl. reflexivity.
+    + rewrite Nat.eqb_refl. reflexivity.
     + rewrite Nat.eqb_refl. reflexivity.
     + rewrite Nat.eqb_refl. reflexivity.
     + rewrite Nat.eqb_refl. reflexivity.
@@ -54,14 +62,14 @@ Proof.
     rewrite IH by lia. reflexivity.
 Qed.
 
-Lemma fails_within_at mode k l : forall i, i <= k -> 1 <= mode <= 4 ->
+Lemma fails_within_at mode k l : forall i, i <= k -> 1 <= mode <= 6 ->
   fails_within (script_of mode k) i (checked l) = (k - i <? length l).
 Proof.
   induction l as [|p r IH]; intros i Hi Hm; cbn [checked map fails_within length].
   - destruct (k - i); reflexivity.
   - fold (checked r). destruct (Nat.eq_dec i k) as [->|Hne].
     + rewrite Nat.sub_diag. unfold script_of.
-      destruct mode as [|[|[|[|[|m]]]]]; try lia; rewrite ?Nat.leb_refl, ?Nat.eqb_refl; reflexivity.
+      destruct mode as [|[|[|[|[|[|[|m]]]]]]]; try lia; rewrite ?Nat.leb_refl, ?Nat.eqb_refl; reflexivity.
     + rewrite script_of_before by lia. cbn [faulty orb]. rewrite IH by lia.
       replace (k - i) with (S (k - S i)) by lia. reflexivity.
 Qed.
@@ -107,7 +115,7 @@ Definition decode_obs (chunks : list (list N)) (a : aobs) : obs :=
 Definition decode_runs (c : list (list N) * list (N * N * aobs)) : list (list N) * list (nat * nat * obs) :=
   (fst c, map (fun '(m, k, a) => (N.to_nat m, N.to_nat k, decode_obs (fst c) a)) (snd c)).
 
-Definition in_modes (mode : nat) : bool := (1 <=? mode) && (mode <=? 4).
+Definition in_modes (mode : nat) : bool := (1 <=? mode) && (mode <=? 6).
 
 Definition C15_corr_a (chunks : list (list N)) (total : nat) (mode k : nat) (a : aobs) : bool :=
   let '(e, n) := if in_modes mode then run_at mode k chunks else run_len (script_of mode k) 0 chunks in
@@ -148,7 +156,7 @@ Proof.
   rewrite firstn_is_prefix. cbn [andb].
   assert (Hf : (if in_modes mode then k <? length chunks else fails_within (script_of mode k) 0 (checked chunks))
                = fails_within (script_of mode k) 0 (checked chunks)).
-  { unfold in_modes. destruct (Nat.leb_spec 1 mode); destruct (Nat.leb_spec mode 4); cbn [andb]; try reflexivity.
+  { unfold in_modes. destruct (Nat.leb_spec 1 mode); destruct (Nat.leb_spec mode 6); cbn [andb]; try reflexivity.
     rewrite fails_within_at by lia. rewrite Nat.sub_0_r. reflexivity. }
   rewrite Hf.
   destruct (fails_within (script_of mode k) 0 (checked chunks)); [reflexivity|].
